@@ -43,6 +43,7 @@ type Stats struct {
 	exhaustive   *bool
 	start        time.Time
 	lastCase     any
+	pinned       any
 }
 
 type Violation struct {
@@ -265,6 +266,32 @@ func (s *Stats) Journal(c any) {
 	}
 }
 
+// Pin records the case that is failing right now. rapid re-runs the minimal
+// failing case last, so the last pinned case is the shrunk one; it takes
+// priority over the journal when the replay file is written.
+func (s *Stats) Pin(c any) {
+	s.mu.Lock()
+	s.pinned = c
+	s.mu.Unlock()
+}
+
+// PinLast pins the most recently journaled case (call right before failing).
+func (s *Stats) PinLast() {
+	s.mu.Lock()
+	s.pinned = s.lastCase
+	s.mu.Unlock()
+}
+
+type fataler interface {
+	Fatalf(format string, args ...any)
+}
+
+// Failf pins the failing case and fails the (rapid or testing) T.
+func (s *Stats) Failf(t fataler, c any, format string, args ...any) {
+	s.Pin(c)
+	t.Fatalf(format, args...)
+}
+
 // Violate records a violation (the caller still has to fail the test).
 func (s *Stats) Violate(kind, detail string, c any) {
 	s.mu.Lock()
@@ -315,6 +342,9 @@ func (s *Stats) Flush(code int) {
 	}
 	if code != 0 {
 		p.LastCase = s.lastCase
+		if s.pinned != nil {
+			p.LastCase = s.pinned
+		}
 	}
 	b, err := json.Marshal(p)
 	if err != nil {
